@@ -8,7 +8,9 @@ use serde_json::{json, Value};
 
 use crate::engine::{StepOut, Sys};
 
-pub const PNS: [u64; 13] = [0, 1, 2, 3, 126, 127, 128, 129, 130, 131, 200, 260, 1_000_000];
+pub const PNS: [u64; 13] = [
+    0, 1, 2, 3, 126, 127, 128, 129, 130, 131, 200, 260, 1_000_000,
+];
 /// `WINDOW_SIZE` in spaces.rs: `1 + 128` packet numbers ending at the highest one seen
 pub const WINDOW_SIZE: u64 = 129;
 
